@@ -308,7 +308,7 @@ def check_model_failed_fit(ctx, c):
     kw = {} if c["model"] == "esn" else {"reset": True}
     Yfit = Ys if c["model"] != "deep" else None
     ctx.count(c, nontrivial=True, obligation=ob)
-    ctx.stat(f"model_failed_fit {c['model']}/{c['failure']}")
+    ctx.stat(f"model_failed_fit {c['model']}/{c['failure']} prior={bool(c.get('prior'))}")
 
     def targets(m, Y):
         if c["model"] != "deep":
@@ -321,6 +321,14 @@ def check_model_failed_fit(ctx, c):
         ctx.violation(f"fitting a fresh {c['model']} model raised {r0[1]}", c, obligation=ob)
         return
     m = mk()
+    if c.get("prior"):
+        # an earlier, completed fit of the same model on other data
+        X0 = [rng.uniform(-1, 1, (10, 2)) for _ in range(2)]
+        Y0 = [np.tanh(x.sum(axis=1, keepdims=True)) for x in X0]
+        rp = common.exc_class(lambda: m.fit(X0, targets(m, Y0), warmup=c["warmup"], **kw))
+        if rp[0] != "ok":
+            ctx.violation(f"fitting a {c['model']} model raised {rp[1]}", c, obligation=ob)
+            return
     r1 = common.exc_class(lambda: m.fit(Xb, targets(m, Yb), warmup=wbad, **kw))
     if r1[0] == "ok":
         ctx.stat("model_failed_fit: malformed data accepted")
@@ -341,7 +349,7 @@ def gen_model_failed_fit(g):
     K = g.randint(2, 4)
     return {"kind": "model_failed_fit", "model": g.choice(["chain", "chain", "esn", "esn", "deep"]), "failure": g.choice(["short", "features", "targets"]),
             "K": K, "lens": [g.randint(8, 14) for _ in range(K)], "bad": g.randint(1, K - 1), "warmup": g.choice([0, 2]),
-            "seed": g.randint(0, 10 ** 6), "dseed": g.randint(0, 10 ** 6)}
+            "seed": g.randint(0, 10 ** 6), "dseed": g.randint(0, 10 ** 6), "prior": g.chance(0.5)}
 
 
 def check_case(ctx, c):
